@@ -166,6 +166,11 @@ def gen_case(rng, i, tier):
     else:
         rates = dict(lam=[_rate(rng) for _ in range(m)], mu=[_rate(rng) for _ in range(m)],
                      psi=[_rate(rng) for _ in range(m)])
+        if not serial and rng.random() < 0.5:
+            # rho-sampling only (psi = 0, the regime of test_bdsky.py::test_single_rho / test_1rho2times);
+            # lambda = mu would make A = 0, a removable singularity of the closed form: kept away from
+            rates["psi"] = [0.0] * m
+            rates["mu"] = [u if abs(u - l) >= 0.05 else l + 0.25 for l, u in zip(rates["lam"], rates["mu"])]
     # --- rho: None (default zeros(1)), [rho_m] (padded in front) or one value per epoch
     rho_last = rng.choice([0.0, 0.0, round(rng.uniform(0.05, 0.95), 2), 1.0]) if serial else \
         rng.choice([round(rng.uniform(0.05, 0.95), 2), 1.0])
@@ -309,7 +314,10 @@ RAISING = ["json-times-list", "json-relative_times", "removal-multi-epoch", "rho
 WRONG_VALUE = ["json-removal_probability", "relative-times", "tip-on-internal-boundary"]
 
 
-def key_of(case, kind, table_bad, extra=None, const=False):
+EXC_OF = {"json-times-list": "TypeError", "json-relative_times": "AttributeError"}
+
+
+def key_of(case, kind, table_bad, extra=None, const=False, exc=None):
     """Stable key of a failure.  A failure of the kind its input class is known for is keyed by the
     class alone ("C09:<class>"); the same class failing in another way, and every failure outside
     the classes, carries the kind (and for plain inputs the entry point) and is therefore new."""
@@ -317,7 +325,7 @@ def key_of(case, kind, table_bad, extra=None, const=False):
         return f"C09:{extra}" if extra else f"C09:plain:constant-model:{kind}"
     hz = hazards(case, table_bad)
     for h in (RAISING if kind == "raises" else WRONG_VALUE):
-        if h in hz:
+        if h in hz and (exc is None or h not in EXC_OF or type(exc).__name__ == EXC_OF[h]):
             return f"C09:{h}"
     for h in RAISING[:-1] + WRONG_VALUE:
         if h in hz:
@@ -674,6 +682,16 @@ def run(tier, seed, replay=None):
         "modelled not verified: torch exp/log/sqrt/searchsorted/gather rounding and semantics (compared under relative "
         "1e-9); float subtraction T - height is exact in the model",
         "python RK4 integrator of the master equations (supporting cross-check only)"]
+    rep.assumptions = [
+        "theorems: lambda, mu, psi > 0, rho in [0,1], epoch durations >= 0, heights >= 0 (psi = 0 with rho-sampling only "
+        "is exercised by the correspondence and RK4 checks, not by the theorems)",
+        "C09_refinement_invariance_partial: whole density for one epoch cut in two, no removal probability; the "
+        "p/q part (C09_split_epoch) for any number of epochs",
+        "a node / tip lying exactly on an epoch boundary has probability zero under the model: the density there is "
+        "a convention; the model takes the convention under which refinement invariance holds (tip: epoch ending at "
+        "the boundary; node: the code's, epoch starting at the boundary)",
+        "the (n-1) ln 2 orientation constant added when a removal probability is given is the code's (BEAST2 "
+        "sampled-ancestor convention), reproduced in the model and in the RK4 reference"]
     rng = random.Random(seed)
     impl.load()
 
@@ -726,7 +744,7 @@ def run(tier, seed, replay=None):
         for c in cases:
             v = out[id(c)]
             if isinstance(v, Exception):
-                add(key_of(c, "raises", table_bad),
+                add(key_of(c, "raises", table_bad, exc=v),
                     f"{'BDSKModel()' if c['api'] == 'BDSK' else 'PiecewiseConstantBirthDeath.log_prob'} raises "
                     f"{type(v).__name__}: {str(v)[:140]} [{c['scenario']}, m={c['m']}]", dict(case=c))
                 continue
@@ -759,7 +777,7 @@ def run(tier, seed, replay=None):
         for c, s in splits:
             v, w = out[id(c)], out[id(s)]
             if isinstance(w, Exception):
-                add(key_of(s, "raises", table_bad),
+                add(key_of(s, "raises", table_bad, exc=w),
                     f"after cutting an epoch in two log_prob raises {type(w).__name__}: {str(w)[:140]} "
                     f"[{s['scenario']}, m={s['m']}]", dict(case=s))
                 continue
